@@ -1157,6 +1157,7 @@ def rule_reset(ctx) -> RuleResult:
             res.find("H5Writer", h, "a normal path leaves the stored dataset in place", fn0.where,
                      "some path on which the entity's node is found returns without deleting the dataset it would rewrite "
                      "(typically: the 'nothing to write' test comes first): assigning None leaves the old content on file")
+    _reset_scalar_attributes(ctx, res, t)
     return res
 
 
@@ -1213,6 +1214,10 @@ def _shadowing_fields(ctx, getter, prop, domain) -> dict:
             todo += [m for m, _ in n.succ]
         return False
 
+    def shadow_candidates(ms):
+        # another persisted attribute (through its property or its field), or any private field read directly (a cache)
+        return ({m.lstrip("_") for m in ms} & (set(domain) - {prop})) | {m.lstrip("_") for m in ms if m.startswith("_") and m.lstrip("_") != prop}
+
     out = {}
     for n in g.nodes:
         if n.kind != "test":
@@ -1220,7 +1225,7 @@ def _shadowing_fields(ctx, getter, prop, domain) -> dict:
         ms = _self_members(n.ast, sn)
         if ms & own:
             continue  # lazy loading / defaulting of the attribute itself
-        others = {m.lstrip("_") for m in ms} & (set(domain) - {prop})
+        others = shadow_candidates(ms)
         if not others:
             continue
         br = {lab: answers_without_own(m) for m, lab in n.succ if lab in ("true", "false")}
@@ -1231,7 +1236,7 @@ def _shadowing_fields(ctx, getter, prop, domain) -> dict:
     for x in ast.walk(v.node):
         if isinstance(x, ast.IfExp):
             ms = _self_members(x.test, sn)
-            others = {m.lstrip("_") for m in ms} & (set(domain) - {prop})
+            others = shadow_candidates(ms)
             if others and not (ms & own) and reads_own(x.body) != reads_own(x.orelse):
                 for o in sorted(others):
                     out.setdefault(o, x.lineno)
@@ -1252,7 +1257,7 @@ def _restores_with(eng, fn, K, fld, other, depth=0, _stack=()):
     aliases = eng._aliases(fn, K)
     m = K.lookup(other[1:])
     other_setter = m[2].setter if (m and m[1] == "prop") else None
-    f_nodes, o_nodes, bad_call = set(), set(), False
+    f_nodes, o_nodes, p_nodes, bad_call = set(), set(), set(), False
     for n in g.nodes:
         if n.kind in ("entry", "exit", "rexit", "withexit", "break", "continue", "def", "except") or n.ast is None or isinstance(n.ast, list):
             continue
@@ -1262,10 +1267,14 @@ def _restores_with(eng, fn, K, fld, other, depth=0, _stack=()):
                     f_nodes.add(n)
                 if ev[2] == other:
                     o_nodes.add(n)
+            elif ev[0] == "persist":
+                p_nodes.add(n)
             elif ev[0] == "call":
                 if ev[1] is other_setter:
                     o_nodes.add(n)
                     continue
+                if eng.analyse(ev[1], K).persists:
+                    p_nodes.add(n)  # the writer runs in there: it reads the attribute through the getter
                 sub_v, sub_m = _restores_with(eng, ev[1], K, fld, other, depth + 1, _stack + (fn,))
                 if sub_m:
                     o_nodes.add(n)
@@ -1277,9 +1286,12 @@ def _restores_with(eng, fn, K, fld, other, depth=0, _stack=()):
     for n in f_nodes:
         if n in o_nodes:
             continue
-        # `other` stored neither before (n reached freely) nor after (exit reached freely from n)
-        if n in free and g.exit in reach(g, [x for x, _ in n.succ], avoid=lambda y: y in o_nodes):
-            violates = True
+        # `other` stored neither before (n reached freely) nor after: the exit — or a persistence call, at which the writer
+        # reads the attribute through its getter — is reached freely from n
+        if n in free:
+            after = reach(g, [x for x, _ in n.succ], avoid=lambda y: y in o_nodes)
+            if g.exit in after or any(x in after for x in p_nodes - o_nodes):
+                violates = True
     eng._memo[key] = (violates, must)
     return eng._memo[key]
 
@@ -1289,7 +1301,7 @@ def rule_shadow(ctx) -> RuleResult:
         "C03.SHADOW",
         "C03",
         "when the getter of a persisted attribute P answers without consulting P's stored value because of a test on ANOTHER "
-        "persisted field G of the entity (G shadows P), P's setter stores G on every normal path that stores P's backing "
+        "field G of the entity — a persisted attribute, or a private cache field — (G shadows P), P's setter stores G on every normal path that stores P's backing "
         "field: otherwise a G left over from an earlier assignment keeps overriding the value just accepted, in memory and "
         "— both being written by the same persistence call — on file",
         floor=60,
@@ -1325,4 +1337,109 @@ def rule_shadow(ctx) -> RuleResult:
     return res
 
 
-RULES = [rule_w1, rule_w2, rule_w3, rule_w4, rule_spec, rule_inplace, rule_skip, rule_reset, rule_shadow]
+def _touches_attrs(n) -> bool:
+    """The CFG node creates / replaces / removes an HDF5 attribute: <h>.attrs.create(..), <h>.attrs[k] = v, del <h>.attrs[k], <h>.attrs.pop(k)."""
+    a = n.ast
+    if a is None or isinstance(a, list) or n.kind == "with":
+        return False
+
+    def is_attrs(e):
+        return isinstance(e, ast.Attribute) and e.attr == "attrs"
+
+    for x in ast.walk(a):
+        if isinstance(x, ast.Call) and isinstance(x.func, ast.Attribute) and is_attrs(x.func.value) \
+                and x.func.attr in ("create", "modify", "pop", "__delitem__", "__setitem__", "update"):
+            return True
+        if isinstance(x, ast.Subscript) and is_attrs(x.value) and isinstance(x.ctx, (ast.Store, ast.Del)):
+            return True
+    return False
+
+
+def _reset_scalar_attributes(ctx, res, t):
+    """The fallback sink (write_attributes): for a key that is a scalar attribute, the path on which the entity's value is None
+    still addresses the stored attribute (removes it) — otherwise assigning None leaves the previous value for the reader."""
+    from ..roles import bound_from
+
+    fn0 = t.writer.methods.get(t.fallback)
+    if fn0 is None or len(fn0.params) < 3:
+        raise AnalysisError(f"anchor H5Writer.{t.fallback} not found")
+    ent_p = fn0.params[2]
+    v = ctx.view(fn0)
+    node = _with_expanded_tests(v.node)
+    defs = single_assignments(node)
+    g = CFG(node)
+
+    def reads_entity(e):
+        return isinstance(e, ast.Call) and isinstance(e.func, ast.Name) and e.func.id == "getattr" and len(e.args) >= 2 \
+            and unparse(expanded(e.args[0], node, defs)) == ent_p and not isinstance(e.args[1], ast.Constant)
+
+    loops = [x for x in ast.walk(node) if isinstance(x, ast.For) and any(reads_entity(c) for c in ast.walk(x))]
+    if len(loops) != 1:
+        raise AnalysisError(f"H5Writer.{t.fallback}: loop over the attribute map not recognised")
+    loop = loops[0]
+    keyvars = [x.id for x in ast.walk(loop.target) if isinstance(x, ast.Name)]
+    values = sorted(bound_from(loop, reads_entity))
+    starts = []
+    for n in g.nodes:
+        if n.kind == "stmt" and isinstance(n.ast, (ast.Assign, ast.AnnAssign)) and n.ast.value is not None and reads_entity(n.ast.value):
+            starts += [m for m, lab in n.succ if lab != "exc"]
+    head = [n for n in g.nodes if n.kind == "fornext" and n.stmt is loop]
+    if not values or not starts or not head or not keyvars:
+        raise AnalysisError(f"H5Writer.{t.fallback}: read of the entity's value not recognised")
+    facts = {}
+    for nm in values:
+        facts["notnone:" + nm] = False
+        facts["notnone:" + unparse(expanded(ast.Name(id=nm, ctx=ast.Load()), node, defs))] = False
+    for kv in keyvars:
+        facts["const:" + kv] = "\x00<a scalar attribute>"  # not one of the dataset-backed keys the loop skips
+    def presence_test(n):
+        """`key in <node>.attrs` (or its negation) whose 'present' branch always goes on to touch the attribute"""
+        if n.kind != "test":
+            return False
+        e, neg = n.ast, False
+        while isinstance(e, ast.UnaryOp) and isinstance(e.op, ast.Not):
+            e, neg = e.operand, not neg
+        if not (isinstance(e, ast.Compare) and len(e.ops) == 1 and isinstance(e.ops[0], (ast.In, ast.NotIn))
+                and isinstance(e.comparators[0], ast.Attribute) and e.comparators[0].attr == "attrs"):
+            return False
+        present = "true" if (isinstance(e.ops[0], ast.In) != neg) else "false"
+        nxt = [m for m, lab in n.succ if lab == present]
+        after = reach(g, nxt, avoid=_touches_attrs)
+        return bool(nxt) and head[0] not in after and g.exit not in after
+
+    seen = reach(g, starts, keyvars[0], facts, avoid=lambda n: _touches_attrs(n) or presence_test(n))
+    ok = head[0] not in seen and g.exit not in seen
+    res.inst(f"H5Writer.{t.fallback}: a None value removes the stored scalar attribute", nontrivial=True, ok=ok)
+    if not ok:
+        res.find("H5Writer", t.fallback, "a None value leaves the stored attribute in place", fn0.where,
+                 "for a scalar key of the attribute map the path on which the entity's value is None goes on to the next key without "
+                 "touching <node>.attrs: an attribute set to None (units, description, end_of_hole, ...) keeps its previous value on "
+                 "file and is read back as if the assignment had not happened")
+
+
+def rule_retype(ctx) -> RuleResult:
+    res = RuleResult(
+        "C03.RETYPE",
+        "C03",
+        "every write of an HDF5 attribute or dataset by the package replaces the stored object (attrs.create / attrs[k] = v / "
+        "create_dataset after deletion), so that its on-file type and shape follow the new value; h5py's type-preserving "
+        "in-place writers (AttributeManager.modify, Dataset.write_direct) cast the new value to the type of the first write",
+        floor=3,
+    )
+    for fn in ctx.p.all_functions():
+        for c in ast.walk(fn.node):
+            if not (isinstance(c, ast.Call) and isinstance(c.func, ast.Attribute)):
+                continue
+            on_attrs = isinstance(c.func.value, ast.Attribute) and c.func.value.attr == "attrs"
+            where = f"{fn.module.relpath}:{c.lineno}"
+            if (on_attrs and c.func.attr == "create") or c.func.attr == "create_dataset":
+                res.inst(f"{fn.qualname}:{c.lineno} replacing write {c.func.attr}")
+            elif (on_attrs and c.func.attr == "modify") or c.func.attr == "write_direct":
+                res.inst(f"{fn.qualname}:{c.lineno} in-place write {c.func.attr}", nontrivial=True, ok=False)
+                res.find(fn.cls.name if fn.cls else fn.module.short, fn.name, f"type-preserving in-place write ({c.func.attr})", where,
+                         f"`{c.func.attr}` keeps the HDF5 type and shape chosen by the first write: a later value of another type "
+                         "(int first, float later; a longer array) is cast or rejected silently and the reader does not see the value assigned")
+    return res
+
+
+RULES = [rule_w1, rule_w2, rule_w3, rule_w4, rule_spec, rule_inplace, rule_skip, rule_reset, rule_shadow, rule_retype]
